@@ -801,6 +801,213 @@ def rule_H(ck, units, floor=12):
                           c['f'], f.where(c), show(off), show(c['a'][1]), bad[0]))
 
 
+def rule_I(ck, units, floor=1, only=None):
+    """I.sentinel-strict: a signed integer parameter that is replaced by a default when it is "not given" (`p < 0 ? dflt : p`,
+    `if (p < 0) p = dflt;`) uses a NEGATIVE sentinel: zero is a legitimate value (a rank that owns no columns, an empty row range).
+    The replacing test must therefore be the strict `p < 0`; `p <= 0` (or `p == 0`, `!p`) also swallows the legitimate zero."""
+    ck.rule('I.sentinel-strict', 'a signed parameter replaced by a default when negative ("not given") is tested with the strict `< 0`: the legitimate value 0 (no columns owned, empty '
+                                 'row range) is never replaced', floor)
+    seen = set()
+    for u in units.values():
+        for f in u.funcs:
+            if f.body is None or not f.rel().startswith('amgcl/') or (f.file, f.line) in seen:
+                continue
+            if only is not None and not f.rel().startswith(only):
+                continue
+            hits = []
+
+            def param_test(c):
+                """(param decl, operator text) of `p OP 0` / `0 OP p` / `!p`"""
+                c = unwrap(c)
+                if c is None:
+                    return None
+                if c['k'] == 'un' and c['op'] == '!':
+                    e = unwrap(c['e'])
+                    if e is not None and e['k'] == 'ref' and f.param_index(e['d']) is not None:
+                        return e['d'], '== 0'
+                    return None
+                if c['k'] != 'bin' or c['op'] not in ('<', '<=', '==', '>', '>=', '!='):
+                    return None
+                x, y = unwrap(c['x']), unwrap(c['y'])
+                if x is not None and y is not None and x['k'] == 'ref' and f.param_index(x['d']) is not None and y['k'] == 'lit' and y.get('v') == '0':
+                    return x['d'], c['op'] + ' 0'
+                flip = {'<': '>', '<=': '>=', '>': '<', '>=': '<=', '==': '==', '!=': '!='}
+                if x is not None and y is not None and y['k'] == 'ref' and f.param_index(y['d']) is not None and x['k'] == 'lit' and x.get('v') == '0':
+                    return y['d'], flip[c['op']] + ' 0'
+                return None
+            for n in f.nodes.values():
+                if n['k'] == 'cond':
+                    t = param_test(n['c'])
+                    if t is None:
+                        continue
+                    d, op = t
+                    # p OP 0 ? dflt : p   (the false arm is the parameter itself)
+                    y = unwrap(n.get('y'))
+                    x = unwrap(n.get('x'))
+                    if y is not None and y['k'] == 'ref' and y['d'] == d and not (x is not None and x['k'] == 'ref' and x['d'] == d):
+                        hits.append((n, d, op, x))
+                elif n['k'] == 'if' and n.get('e') is None and n.get('t') is not None:
+                    t = param_test(n['c'])
+                    if t is None:
+                        continue
+                    d, op = t
+                    body = [m for m in walk(n['t']) if m['k'] == 'bin' and m['op'] == '=']
+                    if len(body) == 1 and unwrap(body[0]['x'])['k'] == 'ref' and unwrap(body[0]['x'])['d'] == d and len([m for m in walk(n['t']) if m['k'] in ('call', 'ret', 'throw')]) == 0:
+                        hits.append((n, d, op, unwrap(body[0]['y'])))
+            if not hits:
+                continue
+            seen.add((f.file, f.line))
+            for n, d, op, dflt in hits:
+                dd = f.decl(d)
+                t = u.type(dd.get('ct')).replace('const ', '').strip()
+                if t not in ('int', 'long', 'long long', 'short', 'signed char'):
+                    continue
+                # replacing 0 by the default 0 changes nothing: `<= 0` is as good as `< 0` there
+                ok = op == '< 0' or (op == '<= 0' and dflt is not None and dflt['k'] == 'lit' and dflt.get('v') == '0')
+                ck.ob('I.sentinel-strict', '%s|%s' % ('::'.join(f.q.split('::')[-2:]), dd['n']), f.where(n), ok, '' if ok else
+                      'parameter `%s` is replaced by its default when `%s %s` at %s: the legitimate value 0 is treated as "not given"' % (dd['n'], dd['n'], op, f.where(n)))
+
+
+def _buf_root(f, e):
+    """(kind, id, path) of the buffer argument of a nonblocking call: &B[k], B + k, B, const_cast<T*>(&B[k])"""
+    e = unwrap(e)
+    while e is not None and e['k'] == 'call' and len(e.get('a', [])) == 1 and 'cast' in (e.get('f') or e.get('m') or ''):
+        e = unwrap(e['a'][0])
+    return ir.access_path(e) if e is not None else None
+
+
+def _idx_text(f, e):
+    """for &B[e] / B[e]: (text of the index of the outermost element access, declarations it mentions); (None, ()) for a whole object"""
+    e = unwrap(e)
+    while e is not None and e['k'] == 'call' and len(e.get('a', [])) == 1 and 'cast' in (e.get('f') or e.get('m') or ''):
+        e = unwrap(e['a'][0])
+    if e is not None and e['k'] == 'un' and e['op'] == '&':
+        e = unwrap(e['e'])
+    if e is not None and e['k'] == 'idx':
+        return show(e['x']), frozenset(x['d'] for x in walk(e['x']) if x['k'] == 'ref')
+    if e is not None and e['k'] in ('call', 'opcall') and (e.get('m') == 'operator[]' or e.get('op') == '[]') and e.get('a'):
+        return show(e['a'][-1]), frozenset(x['d'] for x in walk(e['a'][-1]) if x['k'] == 'ref')
+    return None, frozenset()
+
+
+def rule_J(ck, units, floor=10):
+    """J.send-buffer-stable / J.buffer-outlives-request (MPI-3.1, 3.7.2: the buffer of a nonblocking operation must not be modified - for a
+    receive: not accessed - and must stay alive until the operation is completed by a wait / test).
+    (1) between MPI_Isend(buf, ..., &req) and the completion of req no statement writes into buf (same root object and member path;
+        re-binding of a reference local drops the facts about it - the next neighbour's buffer is another object);
+    (2) buf is not a local variable declared inside a loop body that ends before the request is completed (every iteration would
+        reuse the storage while the previous message may still be in flight)."""
+    from effects import locate
+    ck.rule('J.send-buffer-stable', 'no write into the buffer of an MPI_Isend between the call and the completion (MPI_Wait*, MPI_Test*) of its request, on any CFG path '
+                                    '(forward may-analysis of in-flight buffers per function)', floor)
+    ck.rule('J.buffer-outlives-request', 'the buffer of an MPI_Isend / MPI_Irecv is not a variable local to a loop iteration that ends before the request is completed', floor)
+    seen = set()
+    for u in units.values():
+        for f in u.funcs:
+            if f.body is None or f.cfg is None or not f.rel().startswith('amgcl/mpi') or (f.file, f.line) in seen:
+                continue
+            nb = [n for n in f.nodes.values() if n['k'] == 'call' and n.get('f') in ('MPI_Isend', 'MPI_Irecv') and len(n.get('a', [])) >= 7]
+            if not nb:
+                continue
+            seen.add((f.file, f.line))
+            loc = locate(f)
+            fq = '::'.join(f.q.split('::')[-2:])
+            waits = [n for n in f.nodes.values() if n['k'] == 'call' and (n.get('f') or '').startswith(('MPI_Wait', 'MPI_Test'))]
+
+            def req_root(n):
+                a = n['a']
+                e = a[-1] if n['f'] in ('MPI_Isend', 'MPI_Irecv') else (a[0] if n['f'] in ('MPI_Wait', 'MPI_Test') else a[1])
+                ap = ir.access_path(e)
+                return (ap[0], ap[1], ap[2][:1]) if ap is not None else None
+            events = {}
+
+            def add(n, kind, payload):
+                if n['i'] in loc:
+                    b, pos = loc[n['i']]
+                    events.setdefault(b, []).append((pos, n['i'], kind, payload, n))
+            k = 0
+            for n in sorted(nb, key=lambda t: t['i']):
+                k += 1
+                ap = _buf_root(f, n['a'][0])
+                rq = req_root(n)
+                key = '%s|%s#%d' % (fq, n['f'], k)
+                # ---- (2) lifetime
+                ok2, det2 = True, ''
+                if ap is not None and ap[0] == 'var' and f.decl(ap[1]).get('k') == 'local' and not f.decl(ap[1]).get('ref'):
+                    dnode = next((m for m in f.nodes.values() if m['k'] == 'decl' and any(v['d'] == ap[1] for v in m['v'])), None)
+                    if dnode is not None:
+                        loops = [a for a in f.ancestors(dnode) if a['k'] in ('for', 'while', 'do', 'rfor')]
+                        if loops:
+                            L = loops[0]
+                            inside = {x['i'] for x in walk(L)}
+                            completes = [w for w in waits if w['i'] in inside and req_root(w) == rq]
+                            if not completes:
+                                ok2 = False
+                                det2 = ('%s at %s sends / receives through `%s`, a variable local to one iteration of the loop at %s; the request is completed only after the '
+                                        'loop: the storage is reused (and goes out of scope) while the operation may still be in flight' % (
+                                            n['f'], f.where(n), f.decl(ap[1])['n'], f.where(L)))
+                ck.ob('J.buffer-outlives-request', key, f.where(n), ok2, det2)
+                if n['f'] == 'MPI_Isend' and ap is not None:
+                    it, iv = _idx_text(f, n['a'][0])
+                    add(n, 'send', ((ap[0], ap[1], ap[2]), rq, key, it, iv, True))
+            for w in waits:
+                add(w, 'wait', req_root(w))
+            for n in f.nodes.values():
+                if n['k'] == 'decl':
+                    for v in n['v']:
+                        add(n, 'rebind', v['d'])
+                elif n['k'] in ('bin', 'opcall') and n.get('op') in ('=', '+=', '-=', '*=', '/=') and n.get('x') is not None:
+                    ap = ir.access_path(n['x'])
+                    if ap is not None:
+                        add(n, 'write', (ap[0], ap[1], ap[2], _idx_text(f, n['x'])[0]))
+                    x = unwrap(n['x'])
+                    if x is not None and x['k'] == 'ref' and n['op'] != '=':
+                        add(n, 'inc', x['d'])
+                elif n['k'] == 'un' and n['op'] in ('++', '--'):
+                    ap = ir.access_path(n['e'])
+                    if ap is not None and ap[2]:
+                        add(n, 'write', (ap[0], ap[1], ap[2], _idx_text(f, n['e'])[0]))
+                    x = unwrap(n['e'])
+                    if x is not None and x['k'] == 'ref':
+                        add(n, 'inc', x['d'])
+            for b in events:
+                events[b].sort(key=lambda t: (t[0], t[1]))
+            bad = {}
+
+            def step(evs, st, record=False):
+                st = set(st)
+                for pos, nid, kind, p, node in evs:
+                    if kind == 'send':
+                        st.add(p)
+                    elif kind == 'wait':
+                        st = {t for t in st if t[1] != p}
+                    elif kind == 'rebind':
+                        st = {t for t in st if not (t[0][0] == 'var' and t[0][1] == p)}
+                    elif kind == 'inc':
+                        # the loop variable the slot index depends on moves on: `B[i]` now names another element than the one in flight
+                        st = {(t[:5] + (False,)) if p in t[4] else t for t in st}
+                    elif kind == 'write' and record:
+                        for (root, rq, key, itext, ivars, fresh) in st:
+                            if root[0] == p[0] and root[1] == p[1] and p[2][:len(root[2])] == root[2]:
+                                if itext is not None and p[3] == itext and not fresh:
+                                    continue        # same slot expression in a later iteration of its (monotone) loop: a different element
+                                bad.setdefault(key, node)
+                return frozenset(st)
+            IN, OUT = f.cfg.forward(frozenset(), lambda b, st: step(events.get(b, ()), st), join=lambda a, b_: a | b_)
+            for b, st in IN.items():
+                step(events.get(b, ()), st, record=True)
+            k = 0
+            for n in sorted(nb, key=lambda t: t['i']):
+                k += 1
+                if n['f'] != 'MPI_Isend':
+                    continue
+                key = '%s|%s#%d' % (fq, n['f'], k)
+                w = bad.get(key)
+                ck.ob('J.send-buffer-stable', key, f.where(n), w is None, '' if w is None else
+                      'the buffer `%s` handed to MPI_Isend at %s is modified by `%s` at %s before its request is completed: what the neighbour receives depends on when the MPI '
+                      'runtime copies the data (eager vs rendezvous protocol)' % (show(n['a'][0]), f.where(n), show(w)[:50], f.where(w)))
+
+
 def main(tier):
     ck = Check('C11', tier, 'C11 (clauses): collective scalars are rank-consistent, ghost values are used after the exchange completed, requests are completed.')
     T = os.path.join(ir.VERIF, 'tus')
@@ -815,6 +1022,8 @@ def main(tier):
     rule_F(ck, units)
     rule_G(ck, units)
     rule_H(ck, units)
+    rule_I(ck, units)
+    rule_J(ck, units)
     import c12
     c12.rule_E(ck, units, floor=3)   # row sums cover the ghost columns (spectral radius, spai0; shared with C12)
     ck.assumptions += ['MPI_Allreduce / MPI_Allgather deliver the same result on all ranks', 'configuration parameters (prm.*, scalar arguments such as power_iters) are equal on all ranks',
